@@ -16,6 +16,7 @@ from .checklib import Check
 PARTS = {
     "C03": ("reqwire", "pool", "h2"),
     "C01": ("pool", "h2"),
+    "C06": ("pool", "establish"),
     "C10": ("establish", "pool"),
     "C11": ("establish", "pool"),
     "C14": ("pool", "h2"),
